@@ -115,6 +115,9 @@ Definition guards_of_gen : guards :=
        negb (shape_has "standardRenderer.listen" "ticker.Stop") &&
        shape_has "standardRenderer.stop" "r.done <- struct{}{} r.stopTicker()" &&
        shape_has "standardRenderer.kill" "r.done <- struct{}{} r.stopTicker()";
+     g_release_failure_restores :=
+       call_before Lifecycle.exec_calls "p.ReleaseTerminal" "p.RestoreTerminal" &&
+       has_scall Lifecycle.exec_calls "release-failed" "p.RestoreTerminal";
      g_restore_unignores_first :=
        match Lifecycle.restore_terminal_calls with
        | c :: _ => sc_call c =? "ignoreSignals=0"
